@@ -184,6 +184,43 @@ def prove_abs_le(res, tol, assumptions=None, label="", timeout_ms=20000, exact_f
     if d.is_const():
         k = d.const_value()
         P = n.scale(1 / k)
+        def interval_bound(Pq, tolq):
+            """sound fallback outside the solver: interval bound of the residual over the box"""
+            bx0 = _box_for(Pq.vars())
+            if bx0 is None:
+                return None
+            lo0, hi0 = smt.poly_interval(Pq, bx0)
+            if max(abs(lo0), abs(hi0)) <= tolq:
+                smt.STATS["closed_by_interval"] = smt.STATS.get("closed_by_interval", 0) + 1
+                return Outcome("held", how="interval")
+            return None
+
+        if tol > 0:
+            # residuals that are exact cancellations of exactly solved systems carry coefficients ~1e-16 written as rationals with hundreds
+            # of digits, which the solvers handle badly: those go to the interval bound first; everything else is decided by the solver and
+            # falls back to the interval bound only when the solver answers `unknown`
+            bits = sum(cf.numerator.bit_length() + cf.denominator.bit_length() for cf in P.t.values())
+            if bits > 40000:
+                o_iv = interval_bound(P, tol)
+                if o_iv is not None:
+                    return o_iv
+        if tol > 0 and len(P.vars()) > 12:
+            # many tiny-range variables (enclosure errors of the verified linear solve): their terms are bounded by interval arithmetic and
+            # moved into the tolerance, |P_a + P_e| <= |P_a| + max|P_e|; the solver then sees the small polynomial P_a only
+            bx = _box_for(P.vars())
+            if bx is not None:
+                tiny = {v for v in P.vars() if bx[v][1] - bx[v][0] <= Fraction(1, 10 ** 6) and abs(bx[v][0]) <= Fraction(1, 10 ** 6)}
+                if tiny:
+                    Pe = Poly({m: cf for m, cf in P.t.items() if any(v in tiny for v, _ in m)})
+                    lo_, hi_ = smt.poly_interval(Pe, bx)
+                    bnd = max(abs(lo_), abs(hi_))
+                    if bnd <= tol / 2:
+                        P = Poly({m: cf for m, cf in P.t.items() if not any(v in tiny for v, _ in m)})
+                        tol = tol - bnd
+                        T = Poly.const(tol)
+                        smt.STATS["tiny_terms_bounded"] = smt.STATS.get("tiny_terms_bounded", 0) + 1
+                        if P.is_zero():
+                            return Outcome("held", how="interval")
         goals = [Cond(P.sub(T), ">", "res > tol"), Cond(P.add(T), "<", "res < -tol")]
         if tol == 0:
             goals = [Cond(P, "!=", "res != 0")]
@@ -208,6 +245,10 @@ def prove_abs_le(res, tol, assumptions=None, label="", timeout_ms=20000, exact_f
             return Outcome("held", how="exact")
         if st == "sat":
             return Outcome("cex", env=m, how="exact")
+        if tol > 0:
+            o_iv = interval_bound(P, tol)
+            if o_iv is not None:
+                return o_iv
         return Outcome("inconclusive", how="exact", detail="unknown/timeout")
     # rational residual: |n| <= tol |d| and d != 0
     box = _box_for(n.vars() | d.vars())
